@@ -45,6 +45,12 @@ CHECKS = {
             'Range invariant observed after ~300k real steps (quick) incl. all Thumb-16 words; banking audited over '
             '~200k API operations with all bank cells re-read after each.',
             'Trusted: the bank table in vf/props/c10.py (ARM ARM B1.3.2).', 'DESIGN.md §2 C10'),
+    'C17': ('runtime monitoring: direct calls of the real helpers and field properties compared with reference '
+            'primitives written from the pseudocode and with a table of architectural bit positions',
+            'Exhaustive for widths 1..8, all 2x4096 modified immediates, all (type, imm5) and every value of every field '
+            '<= 8 bits; corners and random values at widths 16/32/64 with shifts 0..255.',
+            'Trusted: vf/ref/bits.py and the field table in vf/props/c17.py (both transcribed from the ARM ARM).',
+            'DESIGN.md §2 C17'),
 }
 
 NOT_APPLICABLE = {}
